@@ -58,8 +58,11 @@ type Contract struct {
 	GhostExit    []*GhostAssign
 	GhostPre     []*GhostAssign
 	Uses         []string
-	Forced       []forcedUse // "use! a b for <substring of obligation kind>"
-	Params       []Param     // only for callbacks / stdlib contracts that rename params
+	AtCall       []atCallGhost // "at-call <callee-key> lhs := rhs": ghost assignment executed just before matching calls
+	Recv         []*chanClause // "recv v assume E": every channel receive yields a value v satisfying E
+	Send         []*chanClause // "send v assert E": every channel send of value v must satisfy E (obligation)
+	Forced       []forcedUse   // "use! a b for <substring of obligation kind>"
+	Params       []Param       // only for callbacks / stdlib contracts that rename params
 	Results      []Param
 	File         string
 	Line         int
@@ -67,6 +70,16 @@ type Contract struct {
 	NoPanic      bool
 	Notes        []string
 	Asserts      map[string][]*Clause // "call:<callee>#k" -> assumptions at call sites (assume-contract)
+}
+
+type atCallGhost struct {
+	Callee string
+	GA     *GhostAssign
+}
+
+type chanClause struct {
+	Var string
+	C   *Clause
 }
 
 type forcedUse struct {
@@ -116,7 +129,7 @@ func NewContractDB() *ContractDB {
 }
 
 var clauseKeywords = map[string]bool{"func": true, "props": true, "trusted": true, "inline": true, "noinline": true, "pure-call": true,
-	"requires": true, "ensures": true, "modifies": true, "use!": true, "loop": true, "ghost-exit": true, "ghost-pre": true, "use": true, "ghost": true,
+	"requires": true, "ensures": true, "modifies": true, "use!": true, "at-call": true, "recv": true, "send": true, "loop": true, "ghost-exit": true, "ghost-pre": true, "use": true, "ghost": true,
 	"pure": true, "ufun": true, "axiom": true, "lemma": true, "callback-field": true, "callback-type": true,
 	"bounded": true, "nopanic": true, "note": true, "end": true, "params": true, "results": true}
 
@@ -476,6 +489,35 @@ func (db *ContractDB) LoadFile(path string, raw bool) error {
 				cur.Bounded = n
 			case "use":
 				cur.Uses = append(cur.Uses, strings.Fields(strings.ReplaceAll(l.rest, ",", " "))...)
+			case "at-call":
+				f := strings.SplitN(l.rest, " ", 2)
+				if len(f) < 2 {
+					db.errf(l, "expected: at-call <callee> lhs := rhs")
+					continue
+				}
+				ga, err := parseGhostAssign(strings.TrimSpace(f[1]))
+				if err != nil {
+					db.errf(l, "%v", err)
+					continue
+				}
+				cur.AtCall = append(cur.AtCall, atCallGhost{Callee: f[0], GA: ga})
+			case "recv", "send":
+				f := strings.SplitN(l.rest, " ", 3)
+				if len(f) < 3 || (f[1] != "assume" && f[1] != "assert") {
+					db.errf(l, "expected: recv v assume E | send v assert E")
+					continue
+				}
+				l2 := l
+				l2.rest = f[2]
+				c := mkClause(l2)
+				if c == nil {
+					continue
+				}
+				if l.kw == "recv" {
+					cur.Recv = append(cur.Recv, &chanClause{Var: f[0], C: c})
+				} else {
+					cur.Send = append(cur.Send, &chanClause{Var: f[0], C: c})
+				}
 			case "use!":
 				parts := strings.SplitN(l.rest, " for ", 2)
 				fu := forcedUse{Names: strings.Fields(strings.ReplaceAll(parts[0], ",", " "))}
